@@ -657,7 +657,8 @@ def analyse(solver_py):
     import py2coq
     import py2coq_kernel
     src = open(solver_py).read()
-    tree = ast.parse(src)
+    import astnorm
+    tree = astnorm.parse_file(solver_py)  # same reading of the module as the slices and the skeleton (harness/astnorm.py)
     fn = py2coq.find_function(tree, SST)
     try:
         _, block = py2coq_kernel.find_mean_block(fn)
